@@ -138,7 +138,7 @@ def _cli_child(job):
     import faulthandler
     try:
         _fh = open(os.path.join(root, "..", "stuck.%d.txt" % os.getpid()), "w")
-        faulthandler.dump_traceback_later(90, repeat=False, file=_fh)
+        faulthandler.dump_traceback_later(int(os.environ.get("CV_STUCK_DUMP_S", "90")), repeat=False, file=_fh)
     except Exception:
         _fh = None
     prof = CrashProfile(crash_at) if (crash_at is not None or count) else None
